@@ -29,7 +29,7 @@ def main(argv):
         ck.coq_gates(["Base", "C33", "C08", "C09", "Gen"], THEOREMS, "EV.C09.Props")
     if bins:
         if os.path.exists(os.path.join(COQ, "theories/C08/Corr.vo")):
-            index_correspondence(ck, bins["c08"], ck.scale(60, 2000))
+            index_correspondence(ck, bins["c08"], ck.scale(60, 1000))
         if os.path.exists(os.path.join(COQ, "theories/C33/Corr.vo")):
             module_correspondence(ck, bins["c33"], ck.scale(50, 2000), label="modcorr")
         if ck.broken:
